@@ -35,8 +35,11 @@ def judge(ctx, g, r_np, r_p):
     inp = {"game": gen.desc(g)}
     players = g["players"]
     n = len(players)
-    if r_np["outcome"] != "ok":
+    if r_np["outcome"] == "Timeout":
         return False
+    if r_np["outcome"] != "ok":
+        ctx.violation("strategies-not-reported", inp, {"outcome": r_np["outcome"], "msg": r_np.get("msg")})
+        return True
     strat = r_np["strats"]
     x = r_np["probs"]
     # shape
@@ -61,7 +64,8 @@ def judge(ctx, g, r_np, r_p):
         ctx.violation("differs-with-pruning", inp, {"unpruned": strat, "pruned": r_p["strats"]})
         return True
     xtl = gen.exact_tl(g)
-    if oracles.count_profiles(players, xtl) > 400 or n > 14:
+    prof = oracles.count_profiles(players, xtl)
+    if prof > 400 or (n > 14 and prof > 4) or n > 90:
         return False
     v = oracles.game_reach_value(players, xtl, g["final_states"])
     ctx.count("exact_sets_checked")
@@ -73,7 +77,9 @@ def judge(ctx, g, r_np, r_p):
         vals = [v[t] for _, t in row]
         if len(set(t for _, t in row)) >= 2:
             nontriv = True
-        if not separated(vals, TOL):
+        fam = g.get("_meta", {}).get("family")
+        tol = 2 * THR if fam in ("close_values", "corridor_choice", "layered_tie", "tie", "reward_tie") else TOL   # acyclic: reports are exact
+        if not separated(vals, tol):
             ctx.count("skipped_close_values")
             continue
         best = max(vals) if players[s] == P1 else min(vals)
@@ -81,7 +87,7 @@ def judge(ctx, g, r_np, r_p):
         if strat[s] != exp:
             # listed finding: the list is exactly the arg-opt of the ROUNDED REPORTED values, every
             # listed action is truly optimal, and only exact ties are missing
-            rep = argopt_reported(row, x, r_np.get("floor", 6), players[s] == P1)
+            rep = argopt_reported(row, x, 6, players[s] == P1)
             missing_only = all(a in exp for a in strat[s])
             sig = KEY_TIE if (rep == strat[s] and missing_only) else None
             ctx.violation("exact-optimal-set", inp,
@@ -99,7 +105,9 @@ def check_case(ctx, g, model=None, thr=None):
     ctx.case({"game": gen.desc(g)}, bool(nt))
     ctx.count("family=" + str(g.get("_meta", {}).get("family", "?")).split(":")[0])
     if model is not None:
-        model.add("reach", dict(wire.game_payload(g, thr=t), prune=False, digits=r_np.get("floor", 6)),
+        import math as _m
+        digits = round(-_m.log10(t))           # the documented precision for a threshold 10^-k, independent of the code
+        model.add("reach", dict(wire.game_payload(g, thr=t), prune=False, digits=digits),
                   expect=r_np, inp={"game": gen.desc(g)}, suite="corr.reach")
 
 
@@ -124,6 +132,12 @@ def run(ctx, model=None):
     from props.c10 import example_games
     for g in example_games():
         check_case(ctx, g, model)
+    for k in range(12 if ctx.quick() else 200):
+        check_case(ctx, gen.close_values_game(rng), model)
+        check_case(ctx, gen.corridor_choice_game(rng), model)
+        check_case(ctx, gen.with_empty_action(gen.stopping_game(rng), rng), model)
+        with impl.forced_debug():
+            check_case(ctx, gen.all_dead_game(rng), model)
     N = 300 if ctx.quick() else 30000
     for k in range(N):
         r = k % 6
